@@ -1,3 +1,161 @@
+"""C04 — see DESIGN §4 C04. The PEERSIM units decide the property on run()/report(); the script unit
+c04-binary evaluates the same truth table at the outermost level: the real connectconformance binary
+(main.go's flag wiring and exit status) with the real reference peers."""
+import importlib.util, itertools, json, os, re, subprocess, time
+from concurrent.futures import ThreadPoolExecutor
+
+_here = os.path.dirname(os.path.abspath(__file__))
+_spec = importlib.util.spec_from_file_location("c01mod_c04", os.path.join(_here, "C01.py"))
+c01 = importlib.util.module_from_spec(_spec)
+_spec.loader.exec_module(c01)
+
+T = "type.googleapis.com/connectrpc.conformance.v1."
+
+BIN_CONF = """features:
+  versions: [HTTP_VERSION_1]
+  protocols: [PROTOCOL_CONNECT]
+  codecs: [CODEC_PROTO]
+  compressions: [COMPRESSION_IDENTITY]
+  streamTypes: [STREAM_TYPE_UNARY]
+  supportsTls: false
+  supportsH2c: false
+  supportsConnectGet: false
+  supportsMessageReceiveLimit: false
+"""
+
+
+def _suite():
+    def case(name, expected=None):
+        c = {"request": {"testName": name, "streamType": "STREAM_TYPE_UNARY", "requestMessages": [
+            {"@type": T + "UnaryRequest", "responseDefinition": {"responseData": "eA=="}, "requestData": "cmVx"}]}}
+        if expected is not None:
+            c["expectedResponse"] = expected
+        return c
+    return {"name": "Bin", "testCases": [
+        case("good"), case("good2"),
+        # explicit expectations that the reference peers do not meet: wrong payload; an error instead of a payload
+        case("bad", {"payloads": [{"data": "enp6"}]}),
+        case("bad2", {"error": {"code": "CODE_ABORTED", "message": "never"}}),
+    ]}
+
+
+PASSES = {"good": True, "good2": True, "bad": False, "bad2": False}
+
+
+def binary_table(unit, work, tier, seed, repo, goenv):
+    bindir = c01.build(repo, work, goenv)
+    d = os.path.join(work, "c04-binary")
+    os.makedirs(d, exist_ok=True)
+    conf = os.path.join(d, "conf.yaml")
+    open(conf, "w").write(BIN_CONF)
+    suite = os.path.join(d, "bin_suite.yaml")
+    json.dump(_suite(), open(suite, "w"))
+    rep = {"evaluations": 0, "distinct_nontrivial": 0, "samples": [], "violations": [], "exhaustive": True, "outcomes": {}, "counters": {}, "notes": [],
+           "rule": "the real connectconformance binary with the real reference client/server, one config case, a suite of two cases the peers pass and two they fail (explicit wrong expectations); every combination of run mode (client, server, both) x --run / --skip selection x --known-failing set x --known-flaky set (sets over the four cases, given directly or through @file) whose patterns all match a selected case; oracle: exit status 0 iff every selected case met its expectation (passes and not known-failing, or fails and known-failing/flaky), totals and FAILED lines as the table says; non-trivial = distinct (mode, selection, marking) combination"}
+    names = ["good", "good2", "bad", "bad2"]
+    selections = [("all", [], []), ("skip-bad", [], ["**/bad"]), ("skip-bads", [], ["**/bad", "**/bad2"]), ("run-good", ["**/good"], []),
+                  ("run-good-bad", ["**/good", "**/bad"], []), ("run-bad2", ["**/bad2"], []), ("run-all-skip-good2", ["Bin/**"], ["**/good2"])]
+    marksets = [[], ["bad"], ["bad2"], ["bad", "bad2"], ["good"], ["good", "bad"]]
+    flakysets = [[], ["bad"], ["good"], ["bad2", "good2"]]
+    if tier == "quick":
+        modes = ["client", "server"]
+    else:
+        modes = ["client", "server", "both"]
+        marksets.append(["good", "good2", "bad", "bad2"])
+        flakysets.append(["good", "good2", "bad", "bad2"])
+
+    def selected(run, skip):
+        out = []
+        for n in names:
+            if run and ("**/" + n) not in run and "Bin/**" not in run:
+                continue
+            if ("**/" + n) in skip:
+                continue
+            out.append(n)
+        return out
+
+    jobs = []
+    for mode in modes:
+        for sname, run, skip in selections:
+            sel = selected(run, skip)
+            for kf in marksets:
+                for kfl in flakysets:
+                    if any(n not in sel for n in kf + kfl):
+                        continue  # a pattern that matches nothing selected is an error of its own (C08)
+                    if set(kf) & set(kfl):
+                        continue  # a case marked both ways is rejected as ambiguous before anything runs (C08)
+                    for via_file in ([False, True] if (kf or kfl) and sname in ("all", "skip-bad") else [False]):
+                        jobs.append((mode, sname, run, skip, sel, kf, kfl, via_file))
+
+    def one(job):
+        mode, sname, run, skip, sel, kf, kfl, via_file = job
+        cmd = [os.path.join(bindir, "connectconformance"), "--conf", conf, "--mode", mode, "--test-file", suite]
+        for r in run:
+            cmd += ["--run", r]
+        for r in skip:
+            cmd += ["--skip", r]
+        tag = "%s-%s-%s-%s" % (mode, sname, "+".join(kf) or "none", "+".join(kfl) or "none")
+        if via_file:
+            for flag, lst, ext in (("--known-failing", kf, "kf"), ("--known-flaky", kfl, "kfl")):
+                if lst:
+                    fn = os.path.join(d, "%s.%s.txt" % (tag, ext))
+                    open(fn, "w").write("# patterns\n" + "\n".join("**/" + n for n in lst) + "\n")
+                    cmd += [flag, "@" + fn]
+        else:
+            for n in kf:
+                cmd += ["--known-failing", "**/" + n]
+            for n in kfl:
+                cmd += ["--known-flaky", "**/" + n]
+        cmd.append("--")
+        if mode == "client":
+            cmd += [os.path.join(bindir, "referenceclient")]
+        elif mode == "server":
+            cmd += [os.path.join(bindir, "referenceserver")]
+        else:
+            cmd += [os.path.join(bindir, "referenceclient"), "----", os.path.join(bindir, "referenceserver")]
+        try:
+            p = subprocess.run(cmd, cwd=repo, capture_output=True, text=True, timeout=600)
+            rc, out, err = p.returncode, p.stdout, p.stderr
+        except subprocess.TimeoutExpired:
+            rc, out, err = -9, "", "TIMEOUT"
+        return job, cmd, rc, out, err
+
+    nthreads = 8
+    with ThreadPoolExecutor(nthreads) as ex:
+        results = list(ex.map(one, jobs))
+    for (mode, sname, run, skip, sel, kf, kfl, via_file), cmd, rc, out, err in results:
+        rep["evaluations"] += 1
+        rep["distinct_nontrivial"] += 1
+        def ok(n):
+            if n in kf:
+                return not PASSES[n]
+            if n in kfl:
+                return True
+            return PASSES[n]
+        want_ok = all(ok(n) for n in sel)
+        want_failed = sorted(n for n in sel if not ok(n))
+        res = c01.parse(out)
+        got_failed = sorted(set(fn.rsplit("/", 1)[-1] for fn in res["failed_names"]))
+        rp = {"cmd": " ".join(cmd), "mode": mode, "selection": sname, "known_failing": kf, "known_flaky": kfl, "via_file": via_file}
+        key = None
+        if rc not in (0, 1):
+            key, detail = "binary-exit-status-other", "exit status %s" % rc
+        elif (rc == 0) != want_ok:
+            key, detail = ("binary-succeeds-although-a-case-missed-its-expectation" if rc == 0 else "binary-fails-although-every-case-met-its-expectation"), "exit status %s, the table says %s" % (rc, "success" if want_ok else "failure")
+        elif res["total"] != len(sel):
+            key, detail = "binary-total", "report says %s cases in total, %d were selected (%s)" % (res["total"], len(sel), sel)
+        elif got_failed != want_failed:
+            key, detail = "binary-failed-lines", "FAILED lines name %s, the table says %s" % (got_failed, want_failed)
+        elif res["failed"] != len(want_failed):
+            key, detail = "binary-failed-count", "report counts %s failed, the table says %d" % (res["failed"], len(want_failed))
+        rep["outcomes"]["rc=%s failed=%s" % (rc, len(got_failed))] = rep["outcomes"].get("rc=%s failed=%s" % (rc, len(got_failed)), 0) + 1
+        if key:
+            rep["violations"].append({"key": key, "detail": "%s | mode=%s selection=%s (%s) known-failing=%s known-flaky=%s via_file=%s\nstdout tail:\n%s\nstderr tail:\n%s" % (detail, mode, sname, sel, kf, kfl, via_file, out[-1200:], err[-600:]), "replay": rp})
+        if len(rep["samples"]) < 3 and (kf or kfl):
+            rep["samples"].append(rp)
+    return rep
+
+
 CC = "internal/app/connectconformance"
 H = ["connectconformance/c04_test.go", "connectconformance/c05_test.go", "connectconformance/peersim_test.go", "connectconformance/c11_test.go",
      "connectconformance/fakeproc_test.go", "connectconformance/gateutil_test.go"]
@@ -6,7 +164,7 @@ CHECK = {
     "level": "model_checking",
     "assumptions": [
         "scripted in-process peers substituted through the verif hook stand for the client/server processes",
-        "the success value is computed from run() and report() exactly as Run() does (results != nil && report() && err == nil); the mapping of that boolean to the process exit status in cmd/connectconformance/main.go is two lines (os.Exit(1) when !ok) and is not executed here",
+        "the success value is computed from run() and report() exactly as Run() does (results != nil && report() && err == nil); the mapping of that boolean to the process exit status and the wiring of the command-line flags in cmd/connectconformance/main.go is executed by the script unit c04-binary only (real binaries, small truth table)",
         "the truth table is evaluated on what the peers actually did in each execution (which requests reached the client, which answers were emitted, which feedback lines were written), so it is schedule-independent",
         "a client that exits with a non-zero status after having answered everything is left undefined by the statement and is not generated",
     ],
@@ -14,10 +172,11 @@ CHECK = {
         "engine": "PEERSIM (GATE)",
         "technique": "explicit enumeration of all fate/marking/feedback/process-fate assignments, each explored over all orders of peer events by the controlled scheduler (stateless model checking of the real run()/report())",
         "text": "Every assignment of {pass, assertion failure, client-reported error, empty result, never answered, server start failure} x {unmarked, known-failing, known-flaky} x {peer feedback or not} x {client exits with status 0 / non-zero after k answers} to 1 case (all combinations) and 2 cases (all fates x all markings; feedback and client exit on a reduced set; 3 cases in the thorough tier) is run through the real run() and report() with one case per server instance, and ordered multi-case batches of up to 2 (3) cases through runTestCasesForServer + report() (server dies after k, client pipe closes at k, unusable server, feedback); every order of the peers' events is explored (0 preemptions quick, 1 thorough). Oracle: the reference truth table of the statement; failing cases named on FAILED lines; totals add up to the number selected.",
-        "note": "Fake peers, virtual time; exit-status binding of Run()'s boolean not executed.",
+        "note": "Fake peers, virtual time; plus c04-binary: the truth table (selection x known-failing x known-flaky x mode) through the real binary and the real reference peers, exit status included.",
         "design_ref": "DESIGN.md §2.3, §4 C04",
     },
     "units": [
+        {"name": "c04-binary", "kind": "script", "func": "binary_table"},
         {
             "name": "c04-peersim", "pkg": CC, "rewrite": [CC], "harness": H,
             "test": "^TestVerifC04$", "gomaxprocs": 1,
